@@ -35,7 +35,7 @@ def gen_programs(r, which):
     for _ in range(n):
         k = r.range(1, 3)
         if which == "mutex":
-            progs.append(" ".join("%s%d" % (r.choice(["l", "l", "l", "t"]), r.below(3)) for _ in range(k)))
+            progs.append(" ".join(("d0" if r.chance(1, 8) else "%s%d" % (r.choice(["l", "l", "l", "t"]), r.below(3))) for _ in range(k)))
         else:
             progs.append(" ".join("%s%d" % (r.choice(["r", "r", "w", "w", "tr", "tw"]), r.below(3)) for _ in range(k)))
     return progs
